@@ -139,12 +139,21 @@ func validateJSONPatchPointers(jsonPatches jsonpatch.Patch) error {
 			continue
 		}
 
+		// the library reads a pointer without a leading '/' as the pointer that follows its first '/'
+		if !isJSONPointer(from) || !isJSONPointer(path) {
+			return fmt.Errorf("json patch: '%s', '%s': a JSON pointer is empty or starts with '/'", from, path)
+		}
+
 		if strings.HasPrefix(path, from+"/") {
 			return fmt.Errorf("json patch: cannot move or copy '%s' into its own child '%s'", from, path)
 		}
 	}
 
 	return nil
+}
+
+func isJSONPointer(pointer string) bool {
+	return pointer == "" || strings.HasPrefix(pointer, "/")
 }
 
 func applyRecover(replaceDoc interface{}) (document.Document, error) {
